@@ -615,7 +615,15 @@ def check_bit_order(idx: Index, rep: Report):
     rep.floor("cirq sample joins", len(joins), 3)
     inds = [n for n in own_nodes(sim.node) if isinstance(n, ast.Assign) and norm(n.targets[0]) == "indices"]
     for n in inds:
-        ok = norm(n.value).replace(" ", "") in ("list(range(source_circuit.width))", "list(range(n_qubits))")
+        # folded with a register of three qubits: the order in which qubits are sampled is 0, 1, 2 however the list is spelled
+        try:
+            class _W:
+                _sa_model = True
+                width = 3
+            val = Folder(env={"n_qubits": 3, "source_circuit": _W()}).expr(n.value)
+            ok = list(val) == [0, 1, 2]
+        except (Undecidable, Raised, TypeError):
+            ok = False
         rep.decide(ok, rule, sim, n, text=f"indices = {norm(n.value)}", what="qubits are sampled in increasing index order", reason=f"indices = {norm(n.value)}")
     # measurement keys of run(): bitstring built for i in range(n_meas + width) in increasing key order
     # -- declared statevector order vs the vector actually returned
